@@ -52,9 +52,6 @@ pub fn entry_chains(present: bool, depth: usize) -> Vec<Vec<EStep>> {
         }
         for s in cands {
             use EStep::*;
-            if matches!(s, OccReplaceEntry | OccReplaceKey) && !has_key {
-                continue;
-            }
             cur.push(s);
             let terminal = matches!(s, OrInsert | OrInsertWith | OrInsertWithKey | OrDefault | OccIntoMut | OccRemove | OccRemoveEntry | OccReplaceEntry | OccReplaceKey | VacIntoKey | VacInsert);
             if terminal {
